@@ -1,5 +1,5 @@
 import PyatvModel.C01.History
-import PyatvModel.C01.Call
+import PyatvModel.C01.TableLemmas
 /-
 C01 — every API call is routed to the highest-priority implementing protocol.
 
@@ -197,13 +197,6 @@ example : ((run (HState.init exFacade) (exOps ++ [.release 0])).fac 1).takeover 
     holders (run (HState.init exFacade) (exOps ++ [.release 0])) 1 = [8] := by decide
 
 /-! ### The regenerated tables -/
-
-theorem Proto.mem_all (p : Proto) : p ∈ Proto.all := by cases p <;> decide
-theorem Iface.mem_all (i : Iface) : i ∈ Iface.all := by cases i <;> decide
-theorem Member.mem_all (m : Member) : m ∈ Member.all := by cases m <;> decide
-theorem PSet.mem_all (S : PSet) : S ∈ PSet.all := by
-  rcases S with ⟨a, b, c, d, e⟩
-  cases a <;> cases b <;> cases c <;> cases d <;> cases e <;> decide
 
 /-- "MRP, DMAP, Companion, AirPlay, RAOP" -/
 theorem default_prio_text : defaultPriorities = [.mrp, .dmap, .companion, .airplay, .raop] := by
